@@ -278,6 +278,10 @@ m("C12-r10", "C12", "libwallet/src/api_impl/owner.rs", "\t\tif !c.input_ids.is_e
 m("C07-r5", "C07", "libwallet/src/internal/selection.rs", "\tlet log_id = batch.next_tx_log_id(&parent_key_id)?;\n\tlet mut t = TxLogEntry::new(parent_key_id.clone(), TxLogEntryType::TxReceived, log_id);", "\tlet log_id = batch.next_tx_log_id(&context.parent_key_id.clone())?;\n\tlet mut t = TxLogEntry::new(parent_key_id.clone(), TxLogEntryType::TxReceived, log_id);", "C07.R5")
 m("C12-r5n", "C12", "impls/src/lifecycle/seed.rs", "\t\twhile Path::new(&backup_seed_file_name).exists() {", "\t\tif Path::new(&backup_seed_file_name).exists() {", "C12.R5")
 
+m("C09-r4", "C09", "libwallet/src/slate_versions/ser.rs", "\t\t\t\t\tif val.len() > MAX_PROOF_SIZE {", "\t\t\t\t\tif val.len() > MAX_PROOF_SIZE * 2 {", "C09.R4")
+m("C04-r7lb", "C04", "libwallet/src/api_impl/owner.rs", "\tlet start_index = last_scanned_block.height.saturating_sub(100);", "\tlet start_index = last_scanned_block.height.saturating_sub(10);", "C04.R7")
+m("C10-r5", "C10", "libwallet/src/slatepack/packer.rs", "\t\tslatepack.try_encrypt_payload(self.0.recipients.clone())?;", "\t\tif slatepack.sender.is_some() {\n\t\t\tslatepack.try_encrypt_payload(self.0.recipients.clone())?;\n\t\t}", "C10.R5")
+
 
 def for_property(prop):
     return [x for x in M if x["property"] == prop]
